@@ -648,3 +648,75 @@ pub fn cmd_sweep_c09(args: &[String]) {
     rep.sample(json!({"outlens": "16..=200, 255..257, 1023..1025, 1100 (both types, t=3)", "pwlens": "0..=300", "memory_kib": mems, "passes": "1..=4 (thorough 6); Argon2i from 3"}));
     rep.write(&args[0]);
 }
+
+// ------------------------------------------------------------------------------------------ end-to-end composition
+/// `e2e <out.json> <seed> <n>`: Dryoc.tla's composition with dryoc on one side and libsodium on the other:
+/// key exchange -> a secret stream in each direction, a box with the precomputed key, a sealed box.
+pub fn cmd_e2e(args: &[String]) {
+    use crate::stream::{so_pull, so_push, so_zero, ABYTES};
+    use dryoc::classic::crypto_secretstream_xchacha20poly1305 as cs;
+    let seed: u64 = args[1].parse().unwrap();
+    let n: u64 = args[2].parse().unwrap();
+    let mut rng = Rng::new(seed ^ 0xe2e);
+    let mut rep = Report::new();
+    for i in 0..n {
+        // dryoc is the client, libsodium the server (and the other way round on odd rounds)
+        let dry_client = i % 2 == 0;
+        let (cs1, ss1): ([u8; 32], [u8; 32]) = (rng.arr(), rng.arr());
+        let (cpk, csk) = ckx::crypto_kx_seed_keypair(&cs1).unwrap();
+        let (mut spk, mut ssk) = ([0u8; 32], [0u8; 32]);
+        unsafe { so::crypto_kx_seed_keypair(spk.as_mut_ptr(), ssk.as_mut_ptr(), ss1.as_ptr()) };
+        let (mut drx, mut dtx, mut srx, mut stx) = ([0u8; 32], [0u8; 32], [0u8; 32], [0u8; 32]);
+        let ok = if dry_client {
+            ckx::crypto_kx_client_session_keys(&mut drx, &mut dtx, &cpk, &csk, &spk).is_ok()
+                && unsafe { so::crypto_kx_server_session_keys(srx.as_mut_ptr(), stx.as_mut_ptr(), spk.as_ptr(), ssk.as_ptr(), cpk.as_ptr()) == 0 }
+        } else {
+            // dryoc plays the server with the libsodium-generated pair; libsodium the client with dryoc's pair
+            ckx::crypto_kx_server_session_keys(&mut drx, &mut dtx, &spk, &ssk, &cpk).is_ok()
+                && unsafe { so::crypto_kx_client_session_keys(srx.as_mut_ptr(), stx.as_mut_ptr(), cpk.as_ptr(), csk.as_ptr(), spk.as_ptr()) == 0 }
+        };
+        rep.evaluations += 1;
+        if !ok || drx != stx || dtx != srx { rep.fail("e2e: session keys of a dryoc/libsodium key exchange do not meet", json!({"i": i, "dryoc_is_client": dry_client})); continue; }
+        if drx == dtx { rep.fail("e2e: both directions share one key", json!({"i": i})); }
+        // stream dryoc -> libsodium keyed with dryoc's tx, and libsodium -> dryoc keyed with libsodium's tx
+        let mut dst = cs::State::new();
+        let mut hdr = [0u8; 24];
+        cs::crypto_secretstream_xchacha20poly1305_init_push(&mut dst, &mut hdr, &dtx);
+        let mut sst = so_zero();
+        unsafe { so::crypto_secretstream_xchacha20poly1305_init_pull(&mut sst, hdr.as_ptr(), srx.as_ptr()) };
+        let mut sps = so_zero();
+        let mut hdr2 = [0u8; 24];
+        unsafe { so::crypto_secretstream_xchacha20poly1305_init_push(&mut sps, hdr2.as_mut_ptr(), stx.as_ptr()) };
+        let mut dpl = cs::State::new();
+        cs::crypto_secretstream_xchacha20poly1305_init_pull(&mut dpl, &hdr2, &drx);
+        for k in 0..6u64 {
+            let mlen = rng.below(200) as usize;
+            let m = rng.bytes(mlen);
+            let tag = (k % 4) as u8;
+            let mut c = vec![0u8; mlen + ABYTES];
+            cs::crypto_secretstream_xchacha20poly1305_push(&mut dst, &mut c, &m, None, tag).unwrap();
+            rep.evaluations += 2;
+            match so_pull(&mut sst, &c, None) { Ok((mm, t)) => if mm != m || t != tag { rep.fail("e2e: libsodium pulls something else than dryoc pushed", json!({"i": i, "k": k})); }, Err(()) => rep.fail("e2e: libsodium rejects a dryoc stream message keyed by the exchange", json!({"i": i, "k": k})) }
+            let c2 = so_push(&mut sps, &m, None, tag);
+            let mut out = vec![0u8; mlen];
+            let mut t = 0u8;
+            match cs::crypto_secretstream_xchacha20poly1305_pull(&mut dpl, &mut out, &mut t, &c2, None) { Ok(_) => if out != m || t != tag { rep.fail("e2e: dryoc pulls something else than libsodium pushed", json!({"i": i, "k": k})); }, Err(_) => rep.fail("e2e: dryoc rejects a libsodium stream message keyed by the exchange", json!({"i": i, "k": k})) }
+        }
+        // box with precomputed keys: dryoc precomputes with (spk, csk), libsodium with (cpk, ssk)
+        let pre_d = cb::crypto_box_beforenm(&spk, &csk);
+        let mut pre_s = [0u8; 32];
+        unsafe { so::crypto_box_beforenm(pre_s.as_mut_ptr(), cpk.as_ptr(), ssk.as_ptr()) };
+        rep.evaluations += 1;
+        if pre_d != pre_s { rep.fail("e2e: precomputed box keys of the two parties differ", json!({"i": i})); }
+        // sealed box from dryoc opened by libsodium
+        let ml = rng.below(100) as usize;
+        let m = rng.bytes(ml);
+        let mut c = vec![0u8; m.len() + 48];
+        cb::crypto_box_seal(&mut c, &m, &spk).unwrap();
+        let mut o = vec![0u8; m.len()];
+        rep.evaluations += 1;
+        if unsafe { so::crypto_box_seal_open(o.as_mut_ptr(), c.as_ptr(), c.len() as u64, spk.as_ptr(), ssk.as_ptr()) } != 0 || o != m { rep.fail("e2e: libsodium cannot open a dryoc sealed box for the exchange key", json!({"i": i})); }
+    }
+    rep.sample(json!({"rounds": n, "per_round": ["kx dryoc<->libsodium", "6 stream messages each way", "beforenm both sides", "sealed box"]}));
+    rep.write(&args[0]);
+}
